@@ -120,6 +120,34 @@ def _replay(hist):
     return None
 
 
+def inductive(rep):
+    """Unbounded-in-steps argument with Apalache (spec/RunDirsInd.tla): FreshDir /\ DenseIdx /\ Chronological (with the clock bound) is an
+    inductive invariant of the run-directory design for ANY non-decreasing clock and run lists of up to 6 entries; a copy whose
+    collision index saturates must fail the inductive step (negative control)."""
+    from lib import apalache
+
+    mod = os.path.join(common.VERIF, "spec", "RunDirsInd.tla")
+    base = apalache.check(mod, init="Init", inv="IndInv", length=6, cinit="CInit")
+    step = apalache.check(mod, init="IndInit", inv="IndInv", length=1, cinit="CInit")
+    bad = os.path.join(common.VERIF, "spec", "_gen_RunDirsBad.tla")
+    with open(mod) as f:
+        text = f.read()
+    text = text.replace("MODULE RunDirsInd", "MODULE _gen_RunDirsBad").replace(
+        "idx |-> CountSame(runs, g, t)]", "idx |-> IF CountSame(runs, g, t) > 1 THEN 1 ELSE CountSame(runs, g, t)]")
+    with open(bad, "w") as f:
+        f.write(text)
+    try:
+        neg = apalache.check(bad, init="IndInit", inv="IndInv", length=1, cinit="CInit")
+    finally:
+        os.remove(bad)
+    rep.extra["apalache_inductive_invariant"] = {"base_case": base["outcome"], "inductive_step": step["outcome"],
+                                                 "negative_control_step": neg["outcome"], "wall_s": base["wall_s"] + step["wall_s"] + neg["wall_s"]}
+    if neg["outcome"] == "NoError":
+        raise MachineryError("the negative control of RunDirsInd passed the inductive step: the argument is vacuous")
+    if base["outcome"] != "NoError" or step["outcome"] != "NoError":
+        rep.violation({"kind": "spec", "invariant": "IndInv (Apalache)", "base": base, "step": step})
+
+
 def main(tier):
     rep = common.Report(PID, tier)
     spec = os.path.join(common.VERIF, "spec")
@@ -133,6 +161,8 @@ def main(tier):
     if r1.invariant_violated:
         rep.violation({"kind": "spec", "invariant": r1.invariant_violated, "tail": r1.stdout[-1500:]})
         return rep.finish()
+    if tier != "quick":
+        inductive(rep)
     hists = []
     for L in range(1, emit_len + 1):
         with open(os.path.join(spec, "_gen_RD_emit.cfg"), "w") as f:
